@@ -410,123 +410,126 @@ func entityRemovalCascade(p *Prog, r *Report, ruleA, ruleB string) {
 		return
 	}
 	nRemovers := 0
-	for _, fn := range p.RepoFns("spine") {
-		var removal *ssa.Call
-		forEachCall(fn, func(site ssa.CallInstruction) {
-			if c, ok := site.(*ssa.Call); ok && calleeIsIfaceMethod(&c.Call, dri, "RemoveEntityByAddress") {
-				removal = c
-			}
-		})
-		if removal == nil {
-			continue
-		}
-		nRemovers++
-		base := FnName(fn)
-		// the loop over the announced entries runs to the end: a notification may add one entity and remove another
-		ab := loopAbandoned(removal.Block())
-		for hop, at := 0, fn; hop < 3 && len(ab) == 1 && ab[0] == "no loop"; hop++ {
-			// the removal branch was extracted: the loop over the entries is in the (single) caller
-			callers := p.Callers(at)
-			if len(callers) != 1 {
-				ab = nil // not inside a loop at all: nothing to abandon
-				break
-			}
-			ab = loopAbandoned(callers[0].Block())
-			at = callers[0].Parent()
-		}
-		if len(ab) == 1 && ab[0] == "no loop" {
-			ab = nil
-		}
-		r.Check(ruleB, base+"|every-entry-processed", len(ab) == 0, p.InstrPos(removal), fmt.Sprintf("the loop over the announced entity entries is left early only by returning an error; other exits: %v", ab))
-		if carried, inLoop := loopCarriedGuards(removal); inLoop {
-			r.Check(ruleB, base+"|removal-independent-of-earlier-entries", len(carried) == 0, p.InstrPos(removal), fmt.Sprintf("whether an entry marked removed is processed depends on that entry only, not on the entries before it: %v", carried))
-		}
-		arg := Path(callArgs(&removal.Call)[0])
-		elem := strings.TrimSuffix(arg, ".Description.EntityAddress.Entity")
-		tested := ""
-		var testedRoot ssa.Instruction
-		for _, g := range Guards(removal.Block()) {
-			bo, ok := g.Cond.(*ssa.BinOp)
-			if !ok || (bo.Op == token.EQL) != g.Val {
-				continue
-			}
-			if s, isS := constString(bo.Y); isS && s == "removed" {
-				tested = strings.TrimSuffix(Path(bo.X), ".Description.LastStateChange")
-				testedRoot = elementRoot(bo.X)
-			}
-		}
-		// paths render every non-constant index alike, so two loops over the same list look the same:
-		// the element removed must also be the same element load (same loop variable) as the one tested
-		sameElem := testedRoot != nil && elementRoot(callArgs(&removal.Call)[0]) == testedRoot
-		r.Check(ruleA, base+"|removes-tested-element", elem != arg && tested != "" && elem == tested && sameElem, p.InstrPos(removal), fmt.Sprintf("removal of %s under a test of the state of %s; same list element (loop variable): %v", arg, tested, sameElem))
-		// on the peer the message came from
-		r.Check(ruleA, base+"|on-sender-device", strings.HasSuffix(Path(removal.Call.Value), ".FeatureRemote.Device()"), p.InstrPos(removal), "removal on "+Path(removal.Call.Value))
-
-		// R2 cascade
-		type step struct {
-			name string
-			call *ssa.Call
-			arg  ssa.Value
-		}
-		var steps []step
-		forEachCall(fn, func(site ssa.CallInstruction) {
-			c, ok := site.(*ssa.Call)
-			if !ok {
+	for _, fn0 := range p.ScopeRoots("spine") {
+		fn := fn0
+		p.InScope(fn, func() {
+			var removal *ssa.Call
+			forEachCall(fn, func(site ssa.CallInstruction) {
+				if c, ok := site.(*ssa.Call); ok && calleeIsIfaceMethod(&c.Call, dri, "RemoveEntityByAddress") {
+					removal = c
+				}
+			})
+			if removal == nil {
 				return
 			}
-			switch {
-			case calleeIsIfaceMethod(&c.Call, smi, "RemoveSubscriptionsForEntity"):
-				steps = append(steps, step{"subscriptions", c, callArgs(&c.Call)[0]})
-			case calleeIsIfaceMethod(&c.Call, bmi, "RemoveBindingsForEntity"):
-				steps = append(steps, step{"bindings", c, callArgs(&c.Call)[0]})
-			case calleeIsIfaceMethod(&c.Call, dli, "CleanRemoteEntityCaches"):
-				a := callArgs(&c.Call)[0]
-				if ac, ok := a.(*ssa.Call); ok && ac.Call.IsInvoke() && ac.Call.Method.Name() == "Address" {
-					a = ac.Call.Value
+			nRemovers++
+			base := FnName(fn)
+			// the loop over the announced entries runs to the end: a notification may add one entity and remove another
+			ab := loopAbandoned(removal.Block())
+			for hop, at := 0, fn; hop < 3 && len(ab) == 1 && ab[0] == "no loop"; hop++ {
+				// the removal branch was extracted: the loop over the entries is in the (single) caller
+				callers := p.Callers(at)
+				if len(callers) != 1 {
+					ab = nil // not inside a loop at all: nothing to abandon
+					break
 				}
-				steps = append(steps, step{"client-caches", c, a})
-			case staticCallee(&c.Call, repoMod+"/spine", "events", "Publish"):
-				ev := eventFields(c.Call.Args[len(c.Call.Args)-1])
-				ct, _ := constInt(ev["ChangeType"])
-				et, _ := constInt(ev["EventType"])
-				wantC, _ := constOf(p, "api", "ElementChangeRemove")
-				wantE, _ := constOf(p, "api", "EventTypeEntityChange")
-				if ct == wantC && et == wantE {
-					steps = append(steps, step{"event", c, ev["Entity"]})
+				ab = loopAbandoned(callers[0].Block())
+				at = callers[0].Parent()
+			}
+			if len(ab) == 1 && ab[0] == "no loop" {
+				ab = nil
+			}
+			r.Check(ruleB, base+"|every-entry-processed", len(ab) == 0, p.InstrPos(removal), fmt.Sprintf("the loop over the announced entity entries is left early only by returning an error; other exits: %v", ab))
+			if carried, inLoop := loopCarriedGuards(removal); inLoop {
+				r.Check(ruleB, base+"|removal-independent-of-earlier-entries", len(carried) == 0, p.InstrPos(removal), fmt.Sprintf("whether an entry marked removed is processed depends on that entry only, not on the entries before it: %v", carried))
+			}
+			arg := Path(callArgs(&removal.Call)[0])
+			elem := strings.TrimSuffix(arg, ".Description.EntityAddress.Entity")
+			tested := ""
+			var testedRoot ssa.Instruction
+			for _, g := range Guards(removal.Block()) {
+				bo, ok := g.Cond.(*ssa.BinOp)
+				if !ok || (bo.Op == token.EQL) != g.Val {
+					continue
+				}
+				if s, isS := constString(bo.Y); isS && s == "removed" {
+					tested = strings.TrimSuffix(Path(bo.X), ".Description.LastStateChange")
+					testedRoot = elementRoot(bo.X)
+				}
+			}
+			// paths render every non-constant index alike, so two loops over the same list look the same:
+			// the element removed must also be the same element load (same loop variable) as the one tested
+			sameElem := testedRoot != nil && elementRoot(callArgs(&removal.Call)[0]) == testedRoot
+			r.Check(ruleA, base+"|removes-tested-element", elem != arg && tested != "" && elem == tested && sameElem, p.InstrPos(removal), fmt.Sprintf("removal of %s under a test of the state of %s; same list element (loop variable): %v", arg, tested, sameElem))
+			// on the peer the message came from
+			r.Check(ruleA, base+"|on-sender-device", strings.HasSuffix(Path(removal.Call.Value), ".FeatureRemote.Device()"), p.InstrPos(removal), "removal on "+Path(removal.Call.Value))
+
+			// R2 cascade
+			type step struct {
+				name string
+				call *ssa.Call
+				arg  ssa.Value
+			}
+			var steps []step
+			forEachCall(fn, func(site ssa.CallInstruction) {
+				c, ok := site.(*ssa.Call)
+				if !ok {
+					return
+				}
+				switch {
+				case calleeIsIfaceMethod(&c.Call, smi, "RemoveSubscriptionsForEntity"):
+					steps = append(steps, step{"subscriptions", c, callArgs(&c.Call)[0]})
+				case calleeIsIfaceMethod(&c.Call, bmi, "RemoveBindingsForEntity"):
+					steps = append(steps, step{"bindings", c, callArgs(&c.Call)[0]})
+				case calleeIsIfaceMethod(&c.Call, dli, "CleanRemoteEntityCaches"):
+					a := callArgs(&c.Call)[0]
+					if ac, ok := a.(*ssa.Call); ok && ac.Call.IsInvoke() && ac.Call.Method.Name() == "Address" {
+						a = ac.Call.Value
+					}
+					steps = append(steps, step{"client-caches", c, a})
+				case staticCallee(&c.Call, repoMod+"/spine", "events", "Publish"):
+					ev := eventFields(c.Call.Args[len(c.Call.Args)-1])
+					ct, _ := constInt(ev["ChangeType"])
+					et, _ := constInt(ev["EventType"])
+					wantC, _ := constOf(p, "api", "ElementChangeRemove")
+					wantE, _ := constOf(p, "api", "EventTypeEntityChange")
+					if ct == wantC && et == wantE {
+						steps = append(steps, step{"event", c, ev["Entity"]})
+					}
+				}
+			})
+			seen := map[string]int{}
+			for _, st := range steps {
+				seen[st.name]++
+				guarded := false
+				extra := 0
+				for _, g := range Guards(st.call.Block()) {
+					if x, trueNil, ok := nilTest(g.Cond); ok && (unwrapIface(x) == ssa.Value(removal) || unwrapIface(substParam(unwrapIface(x))) == ssa.Value(removal)) {
+						if trueNil != g.Val {
+							guarded = true
+						}
+						continue
+					}
+					// guards shared with the removal itself are fine
+					shared := false
+					for _, g2 := range Guards(removal.Block()) {
+						if g2.Cond == g.Cond && g2.Val == g.Val {
+							shared = true
+						}
+					}
+					if !shared {
+						extra++
+					}
+				}
+				okArg := st.arg != nil && (unwrapIface(st.arg) == ssa.Value(removal) || unwrapIface(substParam(unwrapIface(st.arg))) == ssa.Value(removal))
+				r.Check(ruleB, fmt.Sprintf("%s|%s", base, st.name), guarded && okArg && extra == 0 && instrDominates(removal, st.call), p.InstrPos(st.call), fmt.Sprintf("only if the removal found the entity: %v; applied to the removed entity: %v; %d extra conditions", guarded, okArg, extra))
+			}
+			for _, name := range []string{"event", "subscriptions", "bindings", "client-caches"} {
+				if seen[name] != 1 {
+					r.Fail(ruleB, fmt.Sprintf("%s|%s|count", base, name), p.Pos(fn.Pos()), fmt.Sprintf("%d such steps in the removal branch, exactly one expected", seen[name]))
 				}
 			}
 		})
-		seen := map[string]int{}
-		for _, st := range steps {
-			seen[st.name]++
-			guarded := false
-			extra := 0
-			for _, g := range Guards(st.call.Block()) {
-				if x, trueNil, ok := nilTest(g.Cond); ok && unwrapIface(x) == ssa.Value(removal) {
-					if trueNil != g.Val {
-						guarded = true
-					}
-					continue
-				}
-				// guards shared with the removal itself are fine
-				shared := false
-				for _, g2 := range Guards(removal.Block()) {
-					if g2.Cond == g.Cond && g2.Val == g.Val {
-						shared = true
-					}
-				}
-				if !shared {
-					extra++
-				}
-			}
-			okArg := st.arg != nil && unwrapIface(st.arg) == ssa.Value(removal)
-			r.Check(ruleB, fmt.Sprintf("%s|%s", base, st.name), guarded && okArg && extra == 0 && instrDominates(removal, st.call), p.InstrPos(st.call), fmt.Sprintf("only if the removal found the entity: %v; applied to the removed entity: %v; %d extra conditions", guarded, okArg, extra))
-		}
-		for _, name := range []string{"event", "subscriptions", "bindings", "client-caches"} {
-			if seen[name] != 1 {
-				r.Fail(ruleB, fmt.Sprintf("%s|%s|count", base, name), p.Pos(fn.Pos()), fmt.Sprintf("%d such steps in the removal branch, exactly one expected", seen[name]))
-			}
-		}
 	}
 	r.Floor(ruleA, "functions removing remote entities", nRemovers, 1)
 }
